@@ -7,7 +7,7 @@ case "$1" in
 setup)
   git -C /verif worktree remove --force /tmp/vs 2>/dev/null; git -C /repo worktree remove --force /tmp/rs 2>/dev/null
   git -C /verif worktree add -q --detach /tmp/vs HEAD && git -C /repo worktree add -q --detach /tmp/rs HEAD || exit 2
-  sed -i 's#path = "/repo"#path = "/tmp/rs"#' /tmp/vs/harness/Cargo.toml
+  sed -i 's#path = "/repo"#path = "/tmp/rs"#' /tmp/vs/harness/Cargo.toml /tmp/vs/harness20/Cargo.toml; cp /verif/harness20/Cargo.lock /tmp/vs/harness20/Cargo.lock
   sed -i 's#^REPO = "/repo"#REPO = "/tmp/rs"#' /tmp/vs/tools/runner.py /tmp/vs/tools/c16_inventory.py
   cp /verif/harness/Cargo.lock /tmp/vs/harness/Cargo.lock
   (cd /tmp/vs && ./check setup > /tmp/vs.setup.log 2>&1); tail -2 /tmp/vs.setup.log
